@@ -47,7 +47,7 @@ ASSUMPTIONS = [
     "a detector, superposition error 1e-18 there). Linear records therefore use scale = max(max|record|, rho*max|F|) "
     "with max|F| over the whole domain and all steps (auxiliary full-domain field detector) and rho = 1e-3 (f64) / "
     "0.1 (f32); a quadratic record (product of fields, absolute noise eps*max|F|*(|E|+|H|)) is only checked when its "
-    "raw per-cell values reach rho_q^2*max|F|^2, rho_q = 0.03 (f64) / 0.3 (f32) (unreduced twin detector for reduced "
+    "raw per-cell values reach theta*max|F|*max|F_local|, theta = 1e-3 (f64) / 0.1 (f32) (unreduced twin detector for reduced "
     "records), and reduced Poynting sums are scaled by their cancellation factor sum|S_i|/|sum S_i| from that twin",
     "random initial fields are projected onto the boundary walls with the boundaries' own post-update hooks "
     "(a linear projection, applied identically in every run)",
@@ -127,6 +127,23 @@ def _rotated(seq, k):
     return tuple(seq[k:]) + tuple(seq[:k])
 
 
+def _aim(d, s, shape):
+    """Shift detector box d (size kept) so that it contains a cell lit by source s — otherwise most random boxes sit
+    where the wave has not arrived within the run and their quadratic records are below the round-off noise."""
+    if s["type"] in ("uniform_plane", "gaussian_plane"):
+        p = [n // 2 for n in shape]
+        p[s["axis"]] = s["pos"]
+    elif s["type"] == "tfsf_region":
+        p = [(a + b) // 2 for a, b in zip(s["lo"], s["hi"])]
+    else:
+        p = list(s["pos"])
+    for a in range(3):
+        size = d["hi"][a] - d["lo"][a]
+        if not d["lo"][a] <= p[a] < d["hi"][a]:
+            d["lo"][a] = max(0, min(p[a], shape[a] - size))
+            d["hi"][a] = d["lo"][a] + size
+
+
 def _fix_poynting_axis(d):
     """A flux plane with a second size-1 axis has no determinable normal (fdtdx then leaves the detector half
     initialised): name the normal explicitly, which is what a user has to do for such a region."""
@@ -180,10 +197,12 @@ def case_strategy(draw, ctx):
     for i, k in enumerate(kinds):
         d = draw(scenes.detector_strategy(shape, steps, name=f"det{i}", kinds=(k,), switches=False))
         d["switch"] = _window(draw, steps)
+        if draw(st.integers(0, 3)) > 0:
+            _aim(d, sources[i % n_src], shape)
         _fix_poynting_axis(d)
         dets.append(d)
 
-    mode = draw(st.sampled_from(["common", "per_source"]))
+    mode = draw(st.sampled_from(["common", "common", "per_source"]))
     if mode == "common":
         lam = draw(st.sampled_from([2.0, 0.5, -1.5, 3.0]))
         lams, lam0 = [lam] * n_src, lam
@@ -261,7 +280,7 @@ def body(ctx, case):
     by_name = {d["name"]: d for d in scene["detectors"]}
     scene = _with_aux(scene)
     rho = ctx.tol(1e-3, 0.1)  # quiet-region floor, as a fraction of the global max|F| over space and time
-    rho_q = ctx.tol(0.03, 0.3)  # quadratic records: compared when max|raw record| >= rho_q^2 * max|F|^2
+    theta = ctx.tol(1e-3, 0.1)  # quadratic records: compared when max|raw record| >= theta * max|F| * max|F_local|
 
     # ---- classification (from the case alone) --------------------------------------------------
     kinds = sorted({f["kind"] for f in scene["faces"].values()})
@@ -361,11 +380,12 @@ def body(ctx, case):
                     continue
                 d = by_name[name]
                 raw = joint[2][name + TWIN][key] if name + TWIN in joint[2] else qj
-                fj = _amax(allrec(joint))
-                if _amax(raw) < rho_q * rho_q * fj * fj:
-                    # a product of fields carries the absolute noise eps*max|F|*(|E|+|H|): below rho_q^2*max|F|^2 the
-                    # relative noise of the record exceeds the stated tolerance (seen: S = 1e-26 from components of
-                    # 1e-13 next to a dipole of 0.1, relative difference 2e-5)
+                region = (slice(None), slice(None), *(slice(max(lo - 1, 0), hi + 1) for lo, hi in zip(d["lo"], d["hi"])))
+                fj, floc = _amax(allrec(joint)), _amax(allrec(joint)[region])
+                if _amax(raw) < theta * fj * floc:
+                    # a product of fields carries the absolute noise ~4*eps*max|F|*|F_local|: below theta*max|F|*|F_local|
+                    # the relative noise of the record exceeds the stated tolerance (seen: S = 1e-26 from components
+                    # of 1e-13 in the cell of a dipole of 0.1, relative difference 2e-5)
                     ctx.classify("quadratic-below-noise-not-checked")
                     continue
                 if typ == "poynting" and name + TWIN in joint[2]:  # reduced flux: cancellation factor of the sum
